@@ -7,6 +7,20 @@ use serde_json::json;
 fn main() {
     let args = parse_args();
     let mut run = Runner::new("C13", &args.tier, "model_checking");
+
+    // real (default SipHash) hashers first, with oracles that need no hash classes: independent of the model-hasher seam
+    {
+        let (rs, rv) = checks::medium::real_hasher_runs(&["qf"]);
+        run.ev.set("real_hasher_runs", serde_json::json!(rs.ops));
+        let any = !rv.is_empty();
+        for v in rv {
+            run.violation(v);
+        }
+        if any {
+            run.ev.set("stopped_after_real_hasher_runs", serde_json::json!(true));
+            run.finish();
+        }
+    }
     let mut cfgs: Vec<(QfCfg, u64)> = vec![
         (QfCfg::full(1, 1, true), u64::MAX),
         (QfCfg::full(1, 2, true), u64::MAX),
@@ -34,8 +48,8 @@ fn main() {
         let label = cfg.label.clone();
         let model = match QfModel::new(cfg, false) {
             Ok(mut m) => {
-                // one-step look-ahead from every duplicate arrival (state the key cannot see): tables up to 4 slots in quick, 8 in thorough
-                m.lookahead = m.cfg.capacity() <= if run.thorough() { 8 } else { 4 } && m.cfg.universe.len() <= 32;
+                // one-step look-ahead from every duplicate arrival (state the key cannot see): tables up to 4 slots; thorough also 8 slots x 16 elements (the 24-element sub-universes of 8-slot tables have 1.3 M states: look-ahead there costs hours)
+                m.lookahead = (m.cfg.capacity() <= 4 && m.cfg.universe.len() <= 32) || (run.thorough() && m.cfg.capacity() <= 8 && m.cfg.universe.len() <= 16);
                 m
             }
             Err(e) => {
